@@ -14,9 +14,11 @@ func TestMain(m *testing.M) {
 
 func init() {
 	harn.Register("C15_Confine", RunConf)
+	harn.Register("C19_Mirror", RunMirror)
 }
 
 func TestReplay(t *testing.T)  { harn.Replay(t) }
 func TestRegress(t *testing.T) { harn.Regress(t) }
 
 func TestC15_Confine(t *testing.T) { harn.Check(t, "C15_Confine", GenConf, RunConf) }
+func TestC19_Mirror(t *testing.T)  { harn.Check(t, "C19_Mirror", GenMirror, RunMirror) }
